@@ -75,41 +75,41 @@ Python exceptions (never an artefact of the translation) -/
 def Good (r : Except PyErr Frame) : Prop :=
   match r with
   | .ok f => ofM (toM f) = f
-  | .error e => ∃ c, e = .raised c
+  | .error e => ∃ c, e = .raised c ∧ c ∉ baseOnly
 
 theorem good_data (d : List UInt8) : Good (BV.Src.Ash.DataFrame.from_bytes d) := by
   simp only [BV.Src.Ash.DataFrame.from_bytes, unwrap_eq, randomize_eq]
   cases BV.Ash.unwrap d with
-  | error e => simp [unwrapRes, bind, Except.bind, Good]
+  | error e => simp [unwrapRes, bind, Except.bind, Good, baseOnly, baseOnly]
   | ok p =>
     obtain ⟨c, rest⟩ := p
     by_cases h : rest.length ≤ pseudoRandom.length
-    · simp [unwrapRes, bind, Except.bind, Good, h, pure, Except.pure, ofM, toM, b2n] <;> byte_cases c
-    · simp [unwrapRes, bind, Except.bind, Good, h]
+    · simp [unwrapRes, bind, Except.bind, Good, baseOnly, h, pure, Except.pure, ofM, toM, b2n] <;> byte_cases c
+    · simp [unwrapRes, bind, Except.bind, Good, baseOnly, h]
 
 theorem good_ack (d : List UInt8) : Good (BV.Src.Ash.AckFrame.from_bytes d) := by
   simp only [BV.Src.Ash.AckFrame.from_bytes, unwrap_eq]
   cases BV.Ash.unwrap d with
-  | error e => simp [unwrapRes, bind, Except.bind, Good]
+  | error e => simp [unwrapRes, bind, Except.bind, Good, baseOnly, baseOnly]
   | ok p =>
     obtain ⟨c, rest⟩ := p
-    simp [unwrapRes, bind, Except.bind, Good, pure, Except.pure, ofM, toM, b2n] <;> byte_cases c
+    simp [unwrapRes, bind, Except.bind, Good, baseOnly, pure, Except.pure, ofM, toM, b2n] <;> byte_cases c
 
 theorem good_nak (d : List UInt8) : Good (BV.Src.Ash.NakFrame.from_bytes d) := by
   simp only [BV.Src.Ash.NakFrame.from_bytes, unwrap_eq]
   cases BV.Ash.unwrap d with
-  | error e => simp [unwrapRes, bind, Except.bind, Good]
+  | error e => simp [unwrapRes, bind, Except.bind, Good, baseOnly, baseOnly]
   | ok p =>
     obtain ⟨c, rest⟩ := p
-    simp [unwrapRes, bind, Except.bind, Good, pure, Except.pure, ofM, toM, b2n] <;> byte_cases c
+    simp [unwrapRes, bind, Except.bind, Good, baseOnly, pure, Except.pure, ofM, toM, b2n] <;> byte_cases c
 
 theorem good_rst (d : List UInt8) : Good (BV.Src.Ash.RstFrame.from_bytes d) := by
   simp only [BV.Src.Ash.RstFrame.from_bytes, unwrap_eq]
   cases BV.Ash.unwrap d with
-  | error e => simp [unwrapRes, bind, Except.bind, Good]
+  | error e => simp [unwrapRes, bind, Except.bind, Good, baseOnly, baseOnly]
   | ok p =>
     obtain ⟨c, rest⟩ := p
-    cases rest <;> simp [unwrapRes, bind, Except.bind, Good, pure, Except.pure, ofM, toM, throw, throwThe, MonadExceptOf.throw]
+    cases rest <;> simp [unwrapRes, bind, Except.bind, Good, baseOnly, pure, Except.pure, ofM, toM, throw, throwThe, MonadExceptOf.throw]
 
 theorem good_rstack_like (rest : List UInt8) (mk : Nat → Nat → Frame)
     (hmk : ∀ v c : UInt8, ofM (toM (mk v.toNat c.toNat)) = mk v.toNat c.toNat) :
@@ -122,20 +122,20 @@ theorem good_rstack_like (rest : List UInt8) (mk : Nat → Nat → Frame)
             let b24 ← byteAt rest 1
             pure (mk b23 b24) : Except PyErr Frame) := by
   match rest with
-  | [] => simp [Good, throw, throwThe, MonadExceptOf.throw]
-  | [_] => simp [Good, throw, throwThe, MonadExceptOf.throw]
-  | _ :: _ :: _ :: _ => simp [Good, throw, throwThe, MonadExceptOf.throw]
+  | [] => simp [Good, baseOnly, throw, throwThe, MonadExceptOf.throw]
+  | [_] => simp [Good, baseOnly, throw, throwThe, MonadExceptOf.throw]
+  | _ :: _ :: _ :: _ => simp [Good, baseOnly, throw, throwThe, MonadExceptOf.throw]
   | [v, c] =>
     by_cases hv : v.toNat = 2
     · have := hmk v c
-      simp [Good, byteAt, bind, Except.bind, pure, Except.pure, hv] at this ⊢
+      simp [Good, baseOnly, byteAt, bind, Except.bind, pure, Except.pure, hv] at this ⊢
       exact this
-    · simp [Good, byteAt, bind, Except.bind, hv, throw, throwThe, MonadExceptOf.throw]
+    · simp [Good, baseOnly, byteAt, bind, Except.bind, hv, throw, throwThe, MonadExceptOf.throw]
 
 theorem good_rstack (d : List UInt8) : Good (BV.Src.Ash.RStackFrame.from_bytes d) := by
   simp only [BV.Src.Ash.RStackFrame.from_bytes, unwrap_eq]
   cases BV.Ash.unwrap d with
-  | error e => simp [unwrapRes, bind, Except.bind, Good]
+  | error e => simp [unwrapRes, bind, Except.bind, Good, baseOnly, baseOnly]
   | ok p =>
     obtain ⟨c, rest⟩ := p
     have := good_rstack_like rest Frame.RStackFrame (by intro v c; simp [ofM, toM])
@@ -144,7 +144,7 @@ theorem good_rstack (d : List UInt8) : Good (BV.Src.Ash.RStackFrame.from_bytes d
 theorem good_error (d : List UInt8) : Good (BV.Src.Ash.ErrorFrame.from_bytes d) := by
   simp only [BV.Src.Ash.ErrorFrame.from_bytes, unwrap_eq]
   cases BV.Ash.unwrap d with
-  | error e => simp [unwrapRes, bind, Except.bind, Good]
+  | error e => simp [unwrapRes, bind, Except.bind, Good, baseOnly, baseOnly]
   | ok p =>
     obtain ⟨c, rest⟩ := p
     have := good_rstack_like rest Frame.ErrorFrame (by intro v c; simp [ofM, toM])
@@ -152,7 +152,7 @@ theorem good_error (d : List UInt8) : Good (BV.Src.Ash.ErrorFrame.from_bytes d) 
 
 theorem good_parse (d : List UInt8) : Good (BV.Src.Ash.parse_frame d) := by
   cases d with
-  | nil => simp [BV.Src.Ash.parse_frame, byteAt, bind, Except.bind, Good]
+  | nil => simp [BV.Src.Ash.parse_frame, byteAt, bind, Except.bind, Good, baseOnly, baseOnly]
   | cons c0 rest =>
     rw [parse_unroll]
     split
@@ -167,7 +167,7 @@ theorem good_parse (d : List UInt8) : Good (BV.Src.Ash.parse_frame d) := by
     · exact good_rstack _
     split
     · exact good_error _
-    · simp [Good]
+    · simp [Good, baseOnly, baseOnly]
 
 theorem onFrame_no_raised (s : BV.Ash.Rx) (ho : s.open_ = true) (f : BV.Ash.Frame) : BV.Ash.Ev.raised ∉ (BV.Ash.onFrame s f).2 := by
   cases f with
@@ -309,7 +309,7 @@ theorem segment_eq (s : S) (ho : isOpen s = true) (hw : WFs s) (hrx : s.rx_seq <
   cases hu : BV.Ash.unstuff seg with
   | none =>
     refine ⟨data, { s with trace := s.trace ++ [.write (BV.Ash.wire [resCancel] (.nak false false s.rx_seq))] }, ?_, ?_⟩
-    · simp [unstuffRes, bind, PyM.bind, PyM.attempt, PyM.lift, PyErr.caughtBy, PyM.tryCatch, PyM.get, nak_write s ho hrx, pure, PyM.pure]
+    · simp [unstuffRes, baseOnly, bind, PyM.bind, PyM.attempt, PyM.lift, PyErr.caughtBy, PyM.tryCatch, PyM.get, nak_write s ho hrx, pure, PyM.pure]
     · have : isOpen s = true := ho
       simp [BV.Ash.writeFrame, absS, isOpen, srcEvs, toMEv] at this ⊢
       simp [this, hrx]
@@ -321,14 +321,14 @@ theorem segment_eq (s : S) (ho : isOpen s = true) (hw : WFs s) (hrx : s.rx_seq <
     cases hp : BV.Src.Ash.parse_frame d with
     | error e =>
       rw [hp] at hgood hpe
-      obtain ⟨c, rfl⟩ := hgood
+      obtain ⟨c, rfl, hcb⟩ := hgood
       have hm : ∃ x, BV.Ash.parse d = .error x := by
         cases hq : BV.Ash.parse d with
         | error x => exact ⟨x, rfl⟩
         | ok g => rw [hq] at hpe; simp [Except.toOption] at hpe
       obtain ⟨x, hx⟩ := hm
       refine ⟨data, { s with trace := s.trace ++ [.write (BV.Ash.wire [resCancel] (.nak false false s.rx_seq))] }, ?_, ?_⟩
-      · simp [unstuffRes, hp, bind, PyM.bind, PyM.attempt, PyM.lift, PyErr.caughtBy, PyM.tryCatch, PyM.get, nak_write s ho hrx, pure, PyM.pure]
+      · simp [unstuffRes, hp, hcb, bind, PyM.bind, PyM.attempt, PyM.lift, PyErr.caughtBy, PyM.tryCatch, PyM.get, nak_write s ho hrx, pure, PyM.pure]
       · have : isOpen s = true := ho
         simp [hx, BV.Ash.writeFrame, absS, isOpen, srcEvs, toMEv] at this ⊢
         simp [this, hrx]
